@@ -54,8 +54,8 @@ DocumentedNumbers(sub) ==
 (* qm         "default"      the default quantisation matrix of the transform is used        *)
 (*            "custom"       a custom matrix is configured although a default one exists     *)
 (*            "custom_only"  a custom matrix is configured because no default one exists     *)
-(*                           (within the instantiated space: wavelet_index_ho #              *)
-(*                           wavelet_index, hence asymmetric)                                *)
+(*                           (within the instantiated space: pairs of different wavelets     *)
+(*                           for which none is defined, hence asymmetric)                    *)
 (* range      class of the signal range (11.4.9): one of the presets that exist in every     *)
 (*            version, one of the presets added in version 3, or no preset at all            *)
 (* slice      "large" = more than 510 luma coefficients per slice: a luma block in which     *)
